@@ -559,7 +559,9 @@ func (fc *FnCtx) callFuncValue(st *State, fun ast.Expr, call *ast.CallExpr) []Va
 	if c := fc.cs.Funcs["funcval "+name]; c != nil {
 		return fc.applyContract(st, c, fc.cs, fc.pkg.Types, sig, nil, args, "funcval "+name, call.Pos())
 	}
-	fc.nonNilFunc(st, fv, call.Pos())
+	if !fc.cs.PureVars[name] {
+		fc.nonNilFunc(st, fv, call.Pos())
+	}
 	if fc.cs.PureVars[name] {
 		fc.externsUsed["assumed side-effect free function value: "+name] = true
 		return fc.havocResults(st, sig)
